@@ -17,7 +17,7 @@ META = {
             "and seeded random millisecond timelines are executed on the real resolver under testing/synctest virtual time with a "
             "scripted NetResolver; TLC validates every lookup instant (DNSTrace.tla) and every (target, output) pair of "
             "parseTarget, formatIP and Build (DNSTargetTrace.tla).",
-    "note": "Backoff jitter is random in the code: the monitor accepts the whole range 0.8..1.2 x min(1s*1.6^k, 120s). 'A request has "
+    "note": "The minimum interval is measured from the COMPLETION of the successful resolution (lookups take scripted virtual time: 0, 1 tick ... 4 ticks > MinInterval; ResolvingTimeout is raised so that long lookups can succeed). Backoff jitter is random in the code: the monitor accepts the whole range 0.8..1.2 x min(1s*1.6^k, 120s). 'A request has "
             "arrived' is read in the weakest way: every lookup after a success is justified by a distinct ResolveNow call (the code "
             "keeps a one-token channel, so a token stored before the successful lookup finished is honoured after it).",
     "technique": "TLA+ spec + TLC exhaustive check; TLC timelines replayed on the real resolver under virtual time; TLA+ reference oracle for (input, output) pairs; TLC trace validation",
@@ -55,7 +55,7 @@ def judge(ctx, res, tpath, what):
 def run(ctx):
     # ---- design level
     ctx.mc("DNSMC", ctx.pick("DNSMC.cfg", "DNSMCBig.cfg"), workers=8)
-    for k in ctx.pick((1, 2), (1, 2, 3)):
+    for k in ctx.pick((1, 3), (1, 2, 3)):
         ctx.neg("DNSMC", "DNSNeg%d.cfg" % k, expect="I_NoViol", workers=2)
     ctx.mc("DNSTargetMC", ctx.pick("DNSTargetMC.cfg", "DNSTargetMC5.cfg"), workers=8)
     ctx.neg("DNSTargetMC", "DNSTargetNeg.cfg", expect="I_TrailingColon", workers=2)
